@@ -628,6 +628,9 @@ func runC01(a vh.Args, o *vh.Oracle, r *vh.Result) error {
 	if err := c01Plan(o, r, rng, nplan); err != nil {
 		return err
 	}
+	if err := c01SelfSeed(o, r, rng, nplan/4); err != nil {
+		return err
+	}
 	ncli := 120
 	if a.Tier == "thorough" {
 		ncli = 3000
